@@ -45,18 +45,18 @@ def ec_mul(k, pt):
     return r
 
 
-@uf("int,int,int -> bool")
+@uf("int,int,int -> bool", unfold=False)
 def smul_inf(k, x, y):
     return ec_mul(k, (x, y)) is None
 
 
-@uf("int,int,int -> int")
+@uf("int,int,int -> int", unfold=False)
 def smul_x(k, x, y):
     r = ec_mul(k, (x, y))
     return 0 if r is None else r[0]
 
 
-@uf("int,int,int -> int")
+@uf("int,int,int -> int", unfold=False)
 def smul_y(k, x, y):
     r = ec_mul(k, (x, y))
     return 0 if r is None else r[1]
@@ -66,18 +66,18 @@ def smul(k, pt):
     return None if smul_inf(k, pt[0], pt[1]) else (smul_x(k, pt[0], pt[1]), smul_y(k, pt[0], pt[1]))
 
 
-@uf("int,int,int,int -> bool")
+@uf("int,int,int,int -> bool", unfold=False)
 def padd_inf(x1, y1, x2, y2):
     return ec_add((x1, y1), (x2, y2)) is None
 
 
-@uf("int,int,int,int -> int")
+@uf("int,int,int,int -> int", unfold=False)
 def padd_x(x1, y1, x2, y2):
     r = ec_add((x1, y1), (x2, y2))
     return 0 if r is None else r[0]
 
 
-@uf("int,int,int,int -> int")
+@uf("int,int,int,int -> int", unfold=False)
 def padd_y(x1, y1, x2, y2):
     r = ec_add((x1, y1), (x2, y2))
     return 0 if r is None else r[1]
